@@ -6,6 +6,54 @@
 From Verif Require Import Tc.Syntax Tc.Checker Tc.Mutations Tc.Sites.
 
 (* ------------------------------------------------------------------ *)
+(** * Decidable equalities, unfolding equations of the nested fixpoints *)
+
+Lemma bkind_eqb_eq a b : bkind_eqb a b = true <-> a = b.
+Proof. destruct a, b; simpl; split; congruence. Qed.
+
+Lemma ckind_eqb_eq a b : ckind_eqb a b = true <-> a = b.
+Proof. destruct a, b; simpl; split; congruence. Qed.
+
+Lemma ty_eqb_eq a b : ty_eqb a b = true <-> a = b.
+Proof.
+  destruct a, b; simpl; try (split; congruence);
+    rewrite ?andb_true_iff, ?Nat.eqb_eq, ?bkind_eqb_eq, ?ckind_eqb_eq; split; intros; try congruence;
+    try (destruct H; congruence); try (inversion H; auto).
+Qed.
+
+Lemma ty_eqb_refl a : ty_eqb a a = true.
+Proof. apply ty_eqb_eq; reflexivity. Qed.
+
+Section Unfold.
+  Variable R : rules.
+  Variable P : prog.
+
+  Lemma typeof_eq G h args : typeof R P G (E h args) = do ts <- mapM (typeof R P G) args; node_ty R P G h ts.
+  Proof.
+    simpl. f_equal.
+    induction args as [|a r IH]; simpl; [reflexivity|]. now rewrite IH.
+  Qed.
+
+  Lemma check_stmt_eq rets G h es b1 b2 :
+    check_stmt R P rets G (St h es b1 b2) =
+      do ts <- mapM (typeof R P G) es;
+      do G' <- stmt_ty R P rets G h ts (match es with l :: _ => is_lvalue l | [] => false end);
+      do _ <- check_block R P rets G b1;
+      do _ <- check_block R P rets G b2;
+      Ok G'.
+  Proof.
+    assert (Hb : forall l G0,
+      (fix blk (G : env) (l : list stmt) : res unit :=
+         match l with [] => Ok tt | a :: r => do G' <- check_stmt R P rets G a; blk G' r end) G0 l
+      = check_block R P rets G0 l).
+    { induction l as [|a r IH]; intros; simpl; [reflexivity|].
+      destruct (check_stmt R P rets G0 a); simpl; auto. }
+    simpl. rewrite !Hb. reflexivity.
+  Qed.
+
+End Unfold.
+
+(* ------------------------------------------------------------------ *)
 (** * Induction principles for the rose trees *)
 
 Section ExprInd.
